@@ -46,7 +46,7 @@ def configs(tier, seed):
                          ncoef=1, NMAX=NMAX, dtype='f4'))
     for style in ('causal', 'centered'):
         for energy in (False, True):
-            for bank in range(3):
+            for bank in range(len(BANKS)):
                 cfgs.append(dict(kind='ctor', name='ctor %s energy=%s bank%d' % (style, energy, bank), style=style, energy=energy, bank=bank))
     return cfgs
 
@@ -143,6 +143,8 @@ BANKS = [
     dict(supports=((-3, 3), (-1, 2)), supports_hz=((100.0, 300.0), (250.0, 450.0)), zero_phase=True, real=False),
     dict(supports=((0, 5), (0, 3)), supports_hz=((50.0, 200.0), (150.0, 480.0)), zero_phase=False, real=False),
     dict(supports=((-2, 2), (-4, 5), (-1, 1)), supports_hz=((100.0, 200.0), (150.0, 250.0), (300.0, 400.0)), zero_phase=True, real=True),
+    # supports (-(K+1), K) as the triangular / Fbank banks report them for odd K: left + right negative and odd
+    dict(supports=((-4, 3), (-6, 3), (-2, 1)), supports_hz=((100.0, 200.0), (150.0, 250.0), (300.0, 400.0)), zero_phase=True, real=True),
 ]
 
 
@@ -320,11 +322,92 @@ def _definition(c, xs):
     return out
 
 
+def _replay_ctor(w, rng):
+    """real SIFrameComputer on a synthetic real LinearFilterBank with the witness supports and random impulse responses;
+    compute_full against the definition evaluated from the BANK's impulse responses (roll-and-clamp done here, the
+    constructor's prepared filters are not consulted)"""
+    import numpy as np
+    from pydrobert.speech.compute import SIFrameComputer
+    from pydrobert.speech.filters import LinearFilterBank
+    b = BANKS[w.get('bank', 0)]
+    style, energy = w.get('style', 'centered'), w.get('energy', False)
+    S = 3          # frame shift of the ctor configurations (sampling rate 1000 Hz: 3 ms = 3 samples)
+    taps = {}
+
+    class Bank(LinearFilterBank):
+        is_real = b['real']
+        is_analytic = False
+        is_zero_phase = b['zero_phase']
+        num_filts = len(b['supports'])
+        sampling_rate = 1000
+        supports = b['supports']
+        supports_hz = b['supports_hz']
+
+        def get_impulse_response(self, i, width):
+            if (i, width) not in taps:
+                l, r = b['supports'][i]
+                h = np.zeros(width, dtype=np.float64 if b['real'] else np.complex128)
+                for t in range(l, r + 1):
+                    h[t % width] = rng.randn() + (0 if b['real'] else 1j * rng.randn())
+                taps[(i, width)] = h
+            return taps[(i, width)].copy()
+
+        def get_frequency_response(self, i, width, half=False):
+            H = np.fft.fft(self.get_impulse_response(i, width))
+            return H[:width // 2 + 1] if half else H
+
+        def get_truncated_response(self, i, width):
+            return 0, self.get_frequency_response(i, width)
+    try:
+        c = SIFrameComputer(Bank(), frame_shift_ms=S, frame_style=style, include_energy=energy, pad_to_nearest_power_of_two=False,
+                            window_function='hamming', use_power=True, use_log=False)
+    except Exception as e:
+        return {'reproduced': True, 'detail': 'real constructor raised %s: %s' % (type(e).__name__, e)}
+    Sh, D, M, trans = c._frame_shift, c._dft_size, c._max_support, c._translation
+    worst = (0.0, None)
+    for N in (0, 1, Sh, 2 * Sh + 1, D + 3, 2 * D + 5):
+        xs = rng.randn(N)
+        got = c.compute_full(xs)
+        nf = (N + Sh // 2) // Sh
+        want = np.zeros((nf, len(b['supports']) + int(energy)))
+        start0 = trans if style == 'causal' else trans - Sh
+        hs = []
+        if energy:
+            e = np.zeros(D)
+            e[trans] = 1
+            hs.append(e)
+        for i, (l, r) in enumerate(b['supports']):
+            h = Bank().get_impulse_response(i, D)
+            shift = trans - (l + r) // 2 + 1 if style == 'centered' else trans
+            hs.append(np.array([h[(m - shift) % D] for m in range(M)]))
+        for i, h in enumerate(hs):
+            y = np.convolve(xs, h) if N else np.zeros(0)
+            g = np.abs(y) ** 2
+            for k in range(nf):
+                acc = 0.0
+                for j in range(2 * Sh):
+                    q = k * Sh + j + start0
+                    if 0 <= q < len(g):
+                        acc += c._window[j // Sh, j % Sh] * g[q]
+                want[k, i] = acc
+        pre = (Sh < M - trans) if style == 'causal' else (Sh < M - M // 2)
+        if got.shape != want.shape:
+            if pre or got.shape[1] != want.shape[1]:
+                return {'reproduced': True, 'detail': 'shape %s, documented %s' % (got.shape, want.shape)}
+            # outside the property's precondition the frame count is not claimed: compare the frames both have
+            k_ = min(got.shape[0], want.shape[0])
+            got, want = got[:k_], want[:k_]
+        d = float(np.abs(got - want).max()) if got.size else 0.0
+        if d > 1e-7 * max(1.0, float(np.abs(want).max()) if want.size else 1.0) and d > worst[0]:
+            worst = (d, 'supports %s, %s, energy=%s, N=%d' % (b['supports'], style, energy, N))
+    return {'reproduced': worst[1] is not None, 'detail': 'max |compute_full - definition from the bank impulse responses| = %.3g (%s)' % worst}
+
+
 def replay(w):
     import numpy as np
     rng = np.random.RandomState(9)
     if w['kind'] == 'ctor':
-        return {'reproduced': True, 'detail': w['what']}
+        return _replay_ctor(w, rng)
     dtype = np.float32 if w['dtype'] == 'f4' else np.float64
     worst = (0.0, None)
     def mk_real(which, S, pad, energy):
